@@ -9,7 +9,7 @@ rules=[ # (property, signature substring, commit)
  ('C44','get-mismatch/integer_rounding_function','c917139'),('C44','set-accepted-readonly-change/integer_rounding_function','9dc09ea'),('C44','set-wrong-error/integer_rounding_function','ba57147'),
  ('C52','system_calls.rs:6914','8b556ba'),('C52','system_calls.rs:6919','8b556ba'),
  ('C24','acyclic_term','724e3fb'),('C22','char_code','a60600d'),('C22','lower','bd4a35a'),('C10','pstr','7936163'),('C13','pstr','7936163'),('C20','pstr','7936163'),
- ('C14','keysort','076f4ab'),('C14','ord_list_to_assoc','ad01eca'),('C20','suffix','64d8fe6'),
+ ('C14','sort-rejects-list','b411781'),('C14','keysort','076f4ab'),('C14','ord_list_to_assoc','ad01eca'),('C20','suffix','64d8fe6'),
 ]
 import sys
 for f in ['/verif/known_findings.json']+sorted(glob.glob('/verif/known/*.json')):
